@@ -234,6 +234,20 @@ var scenarios = []scenario{
 		w.f.Get("/{m: **}", func(c flamego.Context) string { sched.Point(); w.own(c); return "fallback " + c.Param("m") })
 		return w
 	}},
+	{Name: "two-header-constraints,requests-failing-different-ones", Build: func(n int) *world {
+		w := newWorld(planFor(n, func(t int) []reqSpec {
+			switch t % 3 {
+			case 0:
+				return []reqSpec{{"GET", "/h2", map[string]string{"X-A": "1"}}} // passes the first constraint, fails the second
+			case 1:
+				return []reqSpec{{"GET", "/h2", map[string]string{"X-B": "1"}}}
+			}
+			return []reqSpec{{"GET", "/h2", map[string]string{"X-A": "1", "X-B": "1"}}}
+		}))
+		w.f.Get("/h2", func(c flamego.Context) string { sched.Point(); w.own(c); return "gated" }).Headers("X-A", "^1$", "X-B", "^1$")
+		w.f.Get("/{m: **}", func(c flamego.Context) string { sched.Point(); w.own(c); return "fallback " + c.Param("m") })
+		return w
+	}},
 	{Name: "three-Use-calls+several-handlers+action", Build: func(n int) *world {
 		w := newWorld(planFor(n, func(t int) []reqSpec { return []reqSpec{{"GET", fmt.Sprintf("/m/%d", t), nil}} }))
 		for i := 0; i < 3; i++ {
